@@ -1414,7 +1414,7 @@ void runOne(const sim::Options& opt, uint64_t run, sim::RunReport& rep) {
     qh::GenOptions go = genOptionsFor(property, knob);
     // the loop of a little over 2^20 iterations costs seconds, so it is not left to chance: four fixed run indices of a quick batch
     // (and every 30 000th run of a thorough one) carry it
-    if (property == "C05" && run % 30000 == 20002) go.hugeLoopProb = 1.0;
+    if (property == "C05" && run % 30000 == 20003) go.hugeLoopProb = 1.0;   // (a program-level run that keeps its QASM log: not a multiple of 3, not 2 modulo 5)
     qh::Plan plan = qh::generate(gen, go);
     std::string detail;
     ProgOutcome po;
